@@ -410,6 +410,35 @@ Fixpoint spec_copydirs (proj : list str) (loc : list str) (e : entry) {struct e}
     end
   end.
 
+(* ... and nothing else is copied: every byte copy below <output>/page is a file that the two
+   clauses above account for -- an other file of a page directory, or a file of a directory
+   named by the list that governs a written page: the page's own copy_subdir metadata if the key
+   is present (even with an empty value: "copy nothing here"), else the project's list *)
+Fixpoint spec_may_copy (proj : list str) (loc : list str) (e : entry) {struct e}
+  : list (list str) :=
+  match e with
+  | File _ _ _ _ => []
+  | Dir d es =>
+    match titled_index es with
+    | None => []
+    | Some (_, cp) =>
+      map (fun x => loc ++ [ename x]) (filter plain_file es)
+        ++ copy_items es loc true (eff_copy proj cp)
+        ++ flat_map (fun x => match x with
+                              | File n true _ cpx =>
+                                if md_name n && negb (str_eqb n idx)
+                                then copy_items es loc true (eff_copy proj cpx) else []
+                              | _ => []
+                              end) es
+        ++ flat_map (fun x => match x with
+                              | Dir n _ =>
+                                if visible n && negb (str_in n (eff_copy proj cp))
+                                then spec_may_copy proj (loc ++ [n]) x else []
+                              | File _ _ _ _ => []
+                              end) es
+    end
+  end.
+
 (* an ordered_subpage entry that names nothing in its directory: the run may stop with an
    error message instead of producing the pages *)
 Fixpoint may_fail (e : entry) : bool :=
